@@ -87,13 +87,41 @@ CHECKS["C01"] = dict(
          "source coroutine (values, worlds at delivery, stop point, final world, panic). The side conditions are evaluated on every generated program (evidence: "
          "theorem_side_conditions). Outside the fragment (yielding init/post, break out of a yielding case = finding F2, range, YieldFrom) the check is differential. Known findings F1/F2 are reported as such.",
     note=C_NOTE, design="§6 C01, §11")
+CHECKS["C04"] = dict(
+    category="proof",
+    technique="Coq proof (partial): the statement list the rewriter emits for a range statement (iterator init; for it.MoveNext() { bind; body }) equals, for ANY iterator state machine and any user body "
+              "(frame lemma: user code neither reads nor writes the generated iterator variable), the specification of Go's range statement over the elements that iterator delivers (RangeLoop.v); "
+              "the iterators of seq/iter.go deliver exactly the elements of range n / range string / range slice (Iters.v, C10); composed with the compiler theorem for the compiled generator; "
+              "differential translation validation of range loops (7 kinds x 6 forms x body shapes) in a go 1.22 user module",
+    text="C04_range_statement, C04_integer, C04_string, C04_slice, C04_compiled_range_partial (Props_C04.v). Not covered by a theorem: maps and channels beyond C10, the array-copy rule (finding F4), "
+         "the form without variables; that the real rewriter emits this statement list is checked by the structural correspondence on range programs and by the differential check "
+         "(range expression logs its evaluation; mutation of the ranged collection; break/continue; nesting in closures).",
+    note=C_NOTE, design="§6 C04, §11")
+CHECKS["C05"] = dict(
+    category="proof",
+    technique="Coq proof (partial): the statement pass1 puts in place of YieldFrom(x) does, under the source semantics and for ANY delegate (an arbitrary function on the world), exactly what the "
+              "specification splice says: x evaluated once, one MoveNext of the delegate per consumer advance, its Current delivered, nothing after the consumer stops, rest afterwards (Delegate.v, both directions, any position); "
+              "composed with the compiler theorem for the compiled generator; differential translation validation of YieldFrom over library generators (empty, straight-line, loop, self-recursive) at random positions",
+    text="C05_yieldfrom_is_splice, C05_compiled_yieldfrom_partial (Props_C05.v). The lowering itself is tied to the code by the structural correspondence (programs with YieldFrom are lowered in the source abstraction, "
+         "lib/lowering.py) and by the differential check, where delegates log their own events so order, number and timing of delegate steps are part of the compared log.",
+    note=C_NOTE, design="§6 C05, §11")
+CHECKS["C06"] = dict(
+    category="proof",
+    technique="Coq proof (partial): the loop the rewriter puts in place of `for w (:)= range x` over an iterator does exactly what the specification consume says for ANY iterator and any body "
+              "(one MoveNext per iteration started plus the one reporting exhaustion, bind then body per element, no pull after break/return) (Delegate.v, both directions); composed with the compiler theorem inside generators; "
+              "differential translation validation of consumer-side range over iterators (:= and = forms, break/continue/return, nesting) against the pull-loop reference",
+    text="C06_range_is_consume, C06_compiled_range_partial (Props_C06.v). The interop sentence follows from the iterator automaton of C09; the type replacement clause is not modelled (go/types) and is checked by building generated packages; "
+         "for v (:)= range g inside generator bodies over library generators, reference is the explicit MoveNext/Current loop.",
+    note=C_NOTE, design="§6 C06, §11")
 CHECKS["C11"] = dict(
     category="proof",
-    technique="Coq proof (partial): on the supported fragment no assertion of the rewriter model can fail, for any fuel (Accept.v); legality of the model's output "
-              "(every generated function literal returns on every path, no stray branch statement) evaluated on every generated program; acceptance check on the real compiler: "
+    technique="Coq proof (partial): on the supported fragment no assertion of the rewriter model can fail, for any fuel (Accept.v); in the final output every function literal at any depth "
+              "ends in a statement the transcribed termination checker accepts (Legal.v through pass2, P3Term.v through pass3 and rmRedundantReturn: no 'missing return') and no break/continue is left outside a native loop/switch (Placement.v); "
+              "the remaining legality conditions (legalb) evaluated on every generated program; acceptance check on the real compiler: "
               "generated supported programs must compile without compiler panic under six import styles and the output must build; behaviour compared too",
-    text="C11_no_assertion_failure_partial, C11_no_assertion_any_fuel_partial, C11_branch_placement_partial (after pass3 no break/continue is left outside a native loop/switch) (Props_C11.v): push on a frozen/unchecked block, pop of an empty block, pushReturn with a non-return kind, "
-         "returnNormalRequired on a wrong block kind, yield-in-init and post-not-return are unreachable on the fragment. That the output builds is checked, not proved: go build of the real "
+    text="C11_no_assertion_failure_partial, C11_no_assertion_any_fuel_partial, C11_branch_placement_partial (after pass3 no break/continue is left outside a native loop/switch), "
+         "C11_function_literals_terminate_partial (after pass2) and C11_output_literals_terminate_partial (final output: every function literal terminating) (Props_C11.v): push on a frozen/unchecked block, pop of an empty block, pushReturn with a non-return kind, "
+         "returnNormalRequired on a wrong block kind, yield-in-init and post-not-return are unreachable on the fragment. The rest of 'the output builds' (types, names, imports, unused variables) is checked, not proved: go build of the real "
          "output of every generated program (whole supported grammar plus a regression corpus of shapes that used to crash); untagged rejections are violations.",
     note=C_NOTE, design="§6 C11, §11")
 CHECKS["C12"] = dict(
